@@ -14,8 +14,8 @@
 #   search     the clauses of the property evaluated directly on the implementation; each
 #              failure is a vlib.Hit with a stand-alone replay program
 #
-# toPES divides its `intensity` argument in place (reported under C18); every call here
-# passes a copy so that C19 neither depends on that behaviour nor on its repair.
+# toPES divided its `intensity` argument in place (reported under C18, repaired by fix 2801d91); the
+# pointwise clauses pass copies, and a separate clause (toPES:repeat) hands the same arrays to two calls.
 import json
 import math
 import re
@@ -331,6 +331,13 @@ def cl_topes(radial, intensity, c, per_energy, hv, Vrep, zoom, smooth):
     e0 = abs(Pi[0] * (ceff if per_energy else 1.0) - I[0]) / iscale
     if not e0 <= 1e-12:
         fails.append(('toPES:element0', 'first element: PES[0] = %r for intensity[0] = %r, c = %r' % (float(Pi[0]), float(I[0]), ceff)))
+    # the same arrays handed to a second call (what a caller looping over calibrations does) give the same spectrum
+    rs, Is = r.copy(), I.copy()
+    _V.toPES(rs, Is, c, **kw)
+    E3, P3 = _V.toPES(rs, Is, c, **kw)
+    if not (np.array_equal(E3, E) and np.array_equal(P3, P)):
+        fails.append(('toPES:repeat', 'second call on the same radial / intensity arrays returns a different spectrum '
+                      '(c=%r per_energy_scaling=%r hv=%r Vrep=%r zoom=%r): Jacobian applied to already divided data' % (c, per_energy, hv, Vrep, zoom)))
     if Vrep is not None:
         E2, P2 = _V.toPES(r.copy(), I.copy(), ceff, per_energy_scaling=per_energy, photon_energy=hv)
         if not (np.allclose(E2, E, rtol=1e-12, atol=0) and np.allclose(P2, P, rtol=1e-12, atol=1e-300)):
